@@ -33,7 +33,7 @@ Definition show_ev (k : kind) (e : ev) : string :=
   | ETwice => "TWICE"
   end.
 
-Definition run_show (c : kind * list (cbeh * option outcome) * list op) : string :=
+Definition run_show (c : kind * list input * list op) : string :=
   let '(k, inputs, ops) := c in
   let s := run k inputs ops in
   String.concat " " (map (show_ev k) (rev (log s))) ++ " | "
